@@ -20,7 +20,7 @@ LEVELS = {
 TRUSTED_E1 = [
     "rustc's type checking, MIR construction and constant evaluation (facts are read from the compiler, nothing of the crate is executed)",
     "external callee models of DESIGN.md Appendix B (core/alloc/std, chrono, stack_buf, once_cell, serde): result shape and panic preconditions",
-    "calendar kernel axioms K1/K2 (date2julian/julian2date are the proleptic Gregorian day number and its inverse on 0001-01-01..9999-12-31), K1b (a date lies 0..365 days after 1 January of its own year), K3 (ISO year of an in-range date is in 1..=9999)",
+    "calendar kernel summaries K1/K2/K1b used at call sites (date2julian/julian2date are the proleptic Gregorian day number and its inverse on 0001-01-01..9999-12-31; a date lies 0..365 days after 1 January of its own year) are consequences of the residue-class rules K-lin/K-step/K-anchor/K-inv checked under C01 (DESIGN 11.9); K3 (ISO year of an in-range date is in 1..=9999) is stated",
     "soundness of the abstract interpreter /verif/sda (interval x congruence over linear forms, Div/Rem axioms, bound propagation, trace partitioning)",
 ]
 
@@ -254,6 +254,9 @@ def contract_records(rep: Report, ctx: Ctx, prop):
             if c['ok'] and len(rep.samples) < 10:
                 rep.sample({'contract': key, 'status': 'holds on every exit state'})
     rep.extra.setdefault('contract_roots', {})[ctx.cfg] = len(roots)
+    for r in ctx.e1['roots']:
+        if r['root'] == 'kernel:classes' and prop in ('C01', 'C10', 'C11'):
+            rep.extra.setdefault('residue_classes_analysed', {})[ctx.cfg] = (r.get('extra') or {}).get('classes')
     return len(roots)
 
 
